@@ -175,9 +175,11 @@ Proof.
     match goal with |- context [callback beh 2 ?k ?a ?b ?s] =>
       assert (F : fr st s) by (split; reflexivity);
       pose proof (callback_workload_fr beh 2 k a b st s W N F) as [N2 J2]; destruct (callback beh 2 k a b s) as [r s2] end.
-    cbn [snd] in *. destruct (r <? 0).
-    + match goal with |- nosig ?s /\ _ => assert (F3 : fr s2 s) by (split; reflexivity) end.
-      split; [eapply fr_nosig; eauto|]. intros q. rewrite (fr_jq _ _ q F3). apply J2.
+    cbn [snd] in *.
+    assert (X : forall s', fr s2 s' -> nosig s' /\ (forall q, jq s' q = jq st q))
+      by (intros s' F3; split; [eapply fr_nosig; eauto|intros q; rewrite (fr_jq _ _ q F3); apply J2]).
+    destruct (r <? 0).
+    + destruct (nth_error (polls s2) slot) as [e'|]; [destruct (est_eqb (p_state e') Deleted)|]; apply X; split; reflexivity.
     + match goal with |- nosig ?s /\ _ => assert (F3 : fr s2 s) by (split; reflexivity) end.
       split; [eapply fr_nosig; eauto|]. intros q. rewrite (fr_jq _ _ q F3). apply J2.
 Qed.
